@@ -1,0 +1,20 @@
+//go:build verif
+
+package virtual
+
+// VerifNFSEntries is a read-only verification hook (harness "nfs"): it
+// returns copies of the entries of the lock set in list order. It does
+// not modify the set.
+func (ls *ByteRangeLockSet[Owner]) VerifNFSEntries() []ByteRangeLock[Owner] {
+	var out []ByteRangeLock[Owner]
+	if ls.list.next == nil {
+		return nil
+	}
+	for le := ls.list.next; le != nil && le != &ls.list; le = le.next {
+		out = append(out, le.lock)
+		if len(out) > 1<<16 {
+			break
+		}
+	}
+	return out
+}
